@@ -7,7 +7,7 @@
 From Coq Require Import List NArith ZArith QArith Bool Arith Lia Permutation.
 Import ListNotations.
 From FP Require Import Lin Blocks BlocksProofs PathEnc PathEncProofs Euler EulerProofs1 EulerProofs4 WalkDecode WfCheck
-                       WalkEncRows WalkEncRowsProofs WalkErrEnc WalkErrEncProofs WalkTree WalkEncComplete WalkEncIff.
+                       WalkEncRows WalkEncRowsProofs WalkErrEnc WalkErrEncProofs WalkTree WalkEncComplete WalkEncIff WalkCoverIff.
 Set Default Timeout 60.
 Local Close Scope Q_scope.
 
@@ -104,6 +104,22 @@ Theorem kfdc_feasible_iff_checked (I : kfdc_inst) :
   ((exists a, sat a (encode_kfdc I)) <-> (exists P wt, admissible I P wt)).
 Proof.
   intros H1 H2 Hae. apply kfdc_feasible_iff_within_caps; [apply wf_stg_b_sound; exact H1|exact Hae|apply winputs_ok_b_sound; exact H2].
+Qed.
+
+Lemma winputs_ok_b_sound_w (WI : walk_inst) : winputs_ok_b WI = true -> winputs_ok WI.
+Proof.
+  unfold winputs_ok_b, winputs_ok. intros H. apply andb_true_iff in H. destruct H as [H1 H2].
+  rewrite forallb_forall in H1, H2. split.
+  - intros c e Hc He. specialize (H1 c Hc). rewrite forallb_forall in H1. apply WalkEncRowsProofs.mem_edge_In. apply (H1 e He).
+  - intros w e Hw He. specialize (H2 w Hw). rewrite forallb_forall in H2. apply WalkEncRowsProofs.mem_edge_In. apply (H2 e He).
+Qed.
+
+(* C09 (cyclic): feasibility of the walk-cover LP characterised, premises decided by the extracted checkers *)
+Theorem kpcc_feasible_iff_checked (I : kpcc_inst) :
+  wf_stg_b (pc_graph I) = true -> winputs_ok_b (kpcc_walk I) = true -> o_allow_empty (pc_opts I) = false ->
+  ((exists a, sat a (encode_kpcc I)) <-> (exists P, cover_admissible I P)).
+Proof.
+  intros H1 H2 Hae. apply kpcc_feasible_iff_within_caps; [apply wf_stg_b_sound; exact H1|exact Hae|apply winputs_ok_b_sound_w; exact H2].
 Qed.
 
 (* non-vacuity: the checker accepts the self-loop graph of WalkExamples *)
